@@ -1,10 +1,12 @@
 (* Properties/C16.v -- the attribution tracker is total, bounded and conservative.
    Statements only; every proof is `exact <lemma>` followed by Print Assumptions.
 
-   The model describes the tracker WITH the repairs of the former classes C16-K1 .. C16-K4
+   The model describes the tracker WITH the repairs of the former classes C16-K1, K2, K4
    (per-line move mappings clamped to their target; position-only stable order in
-   merge_attributions and at the boundary of update_attributions; zero-length markers carried
-   through Equal segments; saturating length comparison).  The statements that were refuted
+   merge_attributions and at the boundary of update_attributions; saturating length comparison).
+   The repair of C16-K3 (carrying zero-length markers through Equal segments) was reverted: a marker
+   at a line start slid into the line when the line was re-indented; K3 is a known class again
+   (C16_identity_marker_refuted).  The statements that were refuted
    for those classes are now the positive theorems below, and the old witnesses are the
    regression lemmas C16_regression_*, whose facts and outputs come from real runs.
    The theorems carry exactly the hypotheses their proofs use:
@@ -97,31 +99,29 @@ Theorem C16_new_is_authors : forall attrs author ts f out pre d post,
 Proof. exact new_is_authors. Qed.
 Print Assumptions C16_new_is_authors.
 
-(* a zero-length deletion marker lying in an Equal segment moves along with it *)
-Theorem C16_equal_keeps_markers : forall attrs author ts f out pre d post a,
-  f_segs f = pre ++ (DEq, d) :: post ->
-  update attrs author ts f = Ok out ->
-  In a attrs -> a_start a = a_end a ->
-  blen (cat_old pre) <= a_start a -> a_start a < blen (cat_old pre) + blen d ->
-  In (mkAttr (blen (cat_new pre) + (a_start a - blen (cat_old pre)))
-             (blen (cat_new pre) + (a_start a - blen (cat_old pre))) (a_author a) (a_ts a)) out.
-Proof. exact equal_keeps_markers. Qed.
-Print Assumptions C16_equal_keeps_markers.
-
 (* merge_attributions (sort, dedup, coalesce) changes no line's (author, overrode) *)
 Theorem C16_merge_keeps_lines : forall c l, valid_utf8 c = true -> to_lines (merge l) c = to_lines l c.
 Proof. exact merge_keeps_lines. Qed.
 Print Assumptions C16_merge_keeps_lines.
 
-(* an identical text keeps all line attributions: for ANY priors with start <= end (out of range,
-   zero-length, overlapping, unsorted, duplicated, equal ts), the facts being the single Equal segment *)
+(* an identical text keeps all line attributions: for ANY priors that are proper ranges, start < end
+   (out of range, overlapping, unsorted, duplicated, equal ts), the facts being the single Equal segment *)
 Theorem C16_identity_keeps_lines : forall old attrs author ts,
   valid_utf8 old = true -> Forall ordered attrs ->
   update_lines old attrs author ts (mkFacts [(DEq, old)] [] []) = to_lines attrs old.
 Proof. exact identity_keeps_lines_any. Qed.
 Print Assumptions C16_identity_keeps_lines.
 
-(* the hypothesis start <= end is needed *)
+(* the hypothesis start < end is needed: zero-length priors (deletion markers) are dropped by the
+   update -- known class C16-K3 -- and so are priors with start > end *)
+Theorem C16_identity_marker_refuted :
+  exists old attrs author ts f,
+    wf_diff old old f = true /\ f_segs f = [(DEq, old)] /\ f_moves f = [] /\
+    forallb attr_ordered attrs = true /\ valid_utf8 old = true /\
+    res_lines_eqb (update_lines old attrs author ts f) (to_lines attrs old) = false.
+Proof. exact identity_marker_refuted. Qed.
+Print Assumptions C16_identity_marker_refuted.
+
 Theorem C16_identity_inverted_refuted :
   exists old attrs author ts,
     valid_utf8 old = true /\
@@ -129,8 +129,7 @@ Theorem C16_identity_inverted_refuted :
 Proof. exact identity_inverted_refuted. Qed.
 Print Assumptions C16_identity_inverted_refuted.
 
-(* a list in merge-normal form whose entries lie in the text (non-empty ranges, or markers before its
-   end) -- the shape of every output of update -- is returned unchanged *)
+(* a list in merge-normal form whose entries are non-empty ranges inside the text is returned unchanged *)
 Theorem C16_identity_fixpoint : forall old attrs author ts,
   merge attrs = attrs -> Forall (in_text (blen old)) attrs ->
   update attrs author ts (mkFacts [(DEq, old)] [] []) = Ok attrs.
@@ -159,14 +158,6 @@ Theorem C16_regression_tie :
   res_lines_eqb (update_lines wK2b_old wK2b_attrs wK2b_author 100 wK2b_facts) (to_lines wK2b_attrs wK2b_old) = true.
 Proof. exact regression_tie. Qed.
 Print Assumptions C16_regression_tie.
-
-Theorem C16_regression_marker :
-  update wK3_attrs wK3_author 100 wK3_facts = Ok wK3_attrs /\
-  res_lines_eqb (update_lines wK3_old wK3_attrs wK3_author 100 wK3_facts) (to_lines wK3_attrs wK3_old) = true /\
-  update wK3b_attrs wK3b_author 100 wK3b_facts = Ok wK3b_out /\
-  In (mkAttr 8 8 [97; 105; 95; 50] 9) wK3b_out.
-Proof. exact regression_marker. Qed.
-Print Assumptions C16_regression_marker.
 
 (* non-vacuity: the facts of a real run with a moved block meet every contract *)
 Example C16_nonvacuous :
